@@ -1858,6 +1858,10 @@ func (x *actorSystem) ReSpawn(ctx context.Context, name string) (*PID, error) {
 	node, exist := x.actors.nodeByName(name)
 	if exist {
 		pid := node.value()
+		// a nil value means the node is being deleted concurrently: the actor is gone
+		if pid == nil {
+			return nil, gerrors.NewErrActorNotFound(name)
+		}
 		if err := pid.Restart(ctx); err != nil {
 			return nil, fmt.Errorf("failed to restart actor=%s: %w", pid.ID(), err)
 		}
@@ -2008,7 +2012,8 @@ func (x *actorSystem) ActorOf(ctx context.Context, actorName string) (*PID, erro
 	// dominated SendAsync/SendSync throughput under high parallelism.
 	if pidnode, ok := x.actors.nodeByName(actorName); ok {
 		pid := pidnode.value()
-		if pid.IsStopping() {
+		// a nil value means the node is being deleted concurrently: the actor is gone
+		if pid == nil || pid.IsStopping() {
 			return nil, gerrors.NewErrActorNotFound(actorName)
 		}
 		return pid, nil
@@ -2084,7 +2089,8 @@ func (x *actorSystem) ActorExists(ctx context.Context, actorName string) (bool, 
 	// check locally
 	if node, ok := x.actors.nodeByName(actorName); ok {
 		pid := node.value()
-		if pid.IsStopping() {
+		// a nil value means the node is being deleted concurrently: the actor is gone
+		if pid == nil || pid.IsStopping() {
 			return false, nil
 		}
 		return true, nil
@@ -2395,7 +2401,8 @@ func (x *actorSystem) findRoutee(routeeName string) (*PID, bool) {
 	if pidnode, ok := x.actors.nodeByName(routeeName); ok {
 		pid := pidnode.value()
 		x.locker.RUnlock()
-		return pid, true
+		// a nil value means the node is being deleted concurrently: the routee is gone
+		return pid, pid != nil
 	}
 	x.locker.RUnlock()
 	return nil, false
